@@ -52,12 +52,31 @@ type c18Q struct {
 	outCoq  string
 }
 
+// Everything rendered between two emitted cases belongs to one case.  Long keys are written once per case (`let k3 := kb 256 0x... in`) and referred to by name:
+// parsing a 256-bit numeral is the most expensive part of evaluating a case.
+var (
+	c18Tab      map[string]string
+	c18TabOrder []string
+)
+
 // c18Bits renders a bit string as a Coq [bits] term.
 func c18Bits(s string) string {
 	if len(s) >= 24 {
+		if c18Tab != nil {
+			if name, ok := c18Tab[s]; ok {
+				return name
+			}
+		}
 		n := new(big.Int)
 		n.SetString(s, 2)
-		return fmt.Sprintf("(kb %d %s)", len(s), n.String())
+		lit := fmt.Sprintf("(kb %d 0x%s)", len(s), n.Text(16))
+		if c18Tab == nil {
+			return lit
+		}
+		name := fmt.Sprintf("k%d", len(c18TabOrder))
+		c18Tab[s] = name
+		c18TabOrder = append(c18TabOrder, fmt.Sprintf("let %s := %s in", name, lit))
+		return name
 	}
 	return vfBits(s)
 }
@@ -558,6 +577,19 @@ func c18RandPrefixFree(r *vfRand, p string, maxDepth int, splitPct, holePct int)
 		c18RandPrefixFree(r, p+"1", maxDepth, splitPct, holePct)...)
 }
 
+// c18Cap keeps at most n members of a set (a subset of a prefix-free set is prefix-free).
+func c18Cap(r *vfRand, set []string, n int) []string {
+	if len(set) <= n {
+		return set
+	}
+	out := make([]string, 0, n)
+	for _, j := range r.Perm(len(set))[:n] {
+		out = append(out, set[j])
+	}
+	sort.Strings(out)
+	return out
+}
+
 type c18Case struct {
 	Case int      `json:"case"`
 	Seed uint64   `json:"seed"`
@@ -584,8 +616,12 @@ func (c *c18Case) coq() string {
 	for i, q := range c.Qs {
 		qs[i] = fmt.Sprintf("(%s, %s)", q.coq(), q.outCoq)
 	}
-	return fmt.Sprintf("{| c_b0 := %s; c_s0 := %s;\n   c_b1 := %s; c_s1 := %s;\n   c_qs := %s |}",
+	body := fmt.Sprintf("{| c_b0 := %s; c_s0 := %s;\n   c_b1 := %s; c_s1 := %s;\n   c_qs := %s |}",
 		vfList(b0), c.s0c, vfList(b1), c.s1c, "["+strings.Join(qs, ";\n     ")+"]")
+	if len(c18TabOrder) == 0 {
+		return body
+	}
+	return "(" + strings.Join(c18TabOrder, "\n ") + "\n " + body + ")"
 }
 
 // c18TrieCase builds both tries with the real code, runs the queries, fills the case.
@@ -733,6 +769,10 @@ func TestVerifC18(t *testing.T) {
 	only := vfOnly()
 	thorough := vfThorough()
 	cs := vfNewCases("Run_C18", 40)
+	capKeys := 48 // bound on the size of the randomly generated key sets
+	if thorough {
+		capKeys = 120
+	}
 	root := vfNewRand(seed)
 	idx := 0
 	emit := func(c *c18Case) {
@@ -745,7 +785,9 @@ func TestVerifC18(t *testing.T) {
 		}
 		cs.Count("kind:"+c.Kind, 1)
 		cs.Add(c.coq(), c, c18Sig(c))
+		c18Tab, c18TabOrder = map[string]string{}, nil // the table of long keys is per case
 	}
+	c18Tab, c18TabOrder = map[string]string{}, nil
 	// next returns the fork for case number idx and whether the case is to be run
 	next := func() (*vfRand, int, bool) {
 		r := root.Fork()
@@ -823,7 +865,7 @@ func TestVerifC18(t *testing.T) {
 			continue
 		}
 		maxDepth := 2 + r.Intn(7)
-		set := c18RandPrefixFree(r, "", maxDepth, 55+r.Intn(35), r.Intn(50))
+		set := c18Cap(r, c18RandPrefixFree(r, "", maxDepth, 55+r.Intn(35), r.Intn(50)), capKeys)
 		var ops []c18Bop
 		if r.Chance(30) {
 			es := make([]c18Ent, len(set))
@@ -865,7 +907,7 @@ func TestVerifC18(t *testing.T) {
 				&c18Q{Kind: "prune", K: pickKey(r)}, &c18Q{Kind: "next", K: pickKey(r), Order: order})
 		}
 		// second trie for subtraction
-		set1 := c18RandPrefixFree(r, "", maxDepth, 40+r.Intn(40), r.Intn(70))
+		set1 := c18Cap(r, c18RandPrefixFree(r, "", maxDepth, 40+r.Intn(40), r.Intn(70)), capKeys)
 		c.B1 = c18AddsOf(r, set1, 1000)
 		c.Qs = append(c.Qs, &c18Q{Kind: "subtract"})
 		if run {
@@ -933,7 +975,7 @@ func TestVerifC18(t *testing.T) {
 	}
 
 	// 5. random 256-bit keys (bit256.Key tries): iteration, lookup, successor, prune, allocation
-	nbig := u / 3
+	nbig := u / 4
 	for h := 0; h < nbig; h++ {
 		r, i, run := next()
 		if !run {
@@ -987,8 +1029,8 @@ func TestVerifC18(t *testing.T) {
 		if !run {
 			continue
 		}
-		set := c18RandPrefixFree(r, c18RandBits(r, r.Intn(3)), 4+r.Intn(10), 60+r.Intn(35), r.Intn(40))
-		set1 := c18RandPrefixFree(r, "", 3+r.Intn(8), 50+r.Intn(40), r.Intn(60))
+		set := c18Cap(r, c18RandPrefixFree(r, c18RandBits(r, r.Intn(3)), 4+r.Intn(10), 60+r.Intn(35), r.Intn(40)), capKeys)
+		set1 := c18Cap(r, c18RandPrefixFree(r, "", 3+r.Intn(8), 50+r.Intn(40), r.Intn(60)), capKeys)
 		order := c18RandBits(r, 256)
 		c := &c18Case{Case: i, Kind: "prefixes256", B0: c18AddsOf(r, set, 0), B1: c18AddsOf(r, set1, 1000)}
 		pk := func() string {
@@ -1007,7 +1049,7 @@ func TestVerifC18(t *testing.T) {
 	}
 
 	// 7. regions from peers, assignment of keys to regions, shortest covered prefix
-	nreg := u / 2
+	nreg := u / 3
 	for h := 0; h < nreg; h++ {
 		r, i, run := next()
 		if !run {
